@@ -3127,6 +3127,9 @@ class Trimesh(Geometry3D):
         copied._cache.verify()
 
         if include_cache:
+            # make sure anything computed before an in-place
+            # change to our data is dumped rather than copied
+            self._cache.verify()
             # shallow copy cached items into the new cache
             # since the data didn't change here when the
             # data in the new mesh is changed these items
